@@ -22,7 +22,7 @@ from concurrent.futures import ThreadPoolExecutor
 from pathlib import Path
 from typing import Dict, List, Tuple
 
-from fjv import c01, tlc
+from fjv import c01, engines, tlc
 from fjv.core import Check, MachineryFailure
 
 CHILD = r'''
@@ -159,7 +159,7 @@ def run_children(cases: List[dict], scratch: Path, nproc: int = 16, budget: int 
         wp, op = scratch / f"rw{c['id']}.json", scratch / f"ro{c['id']}.json"
         wp.write_text(json.dumps([c]))
         try:
-            subprocess.run([sys.executable, str(child), "/repo", str(wp), str(op)], timeout=budget, capture_output=True,
+            subprocess.run([sys.executable, str(child), str(engines.REPO), str(wp), str(op)], timeout=budget, capture_output=True,
                            env=dict(os.environ, PYTHONHASHSEED="0"))
         except subprocess.TimeoutExpired:
             pass
@@ -181,7 +181,7 @@ def run_children(cases: List[dict], scratch: Path, nproc: int = 16, budget: int 
             if op.exists():
                 op.unlink()
             try:
-                subprocess.run([sys.executable, str(child), "/repo", str(wp), str(op)], timeout=budget + 5 * 0 + 60, capture_output=True,
+                subprocess.run([sys.executable, str(child), str(engines.REPO), str(wp), str(op)], timeout=budget + 5 * 0 + 60, capture_output=True,
                                env=dict(os.environ, PYTHONHASHSEED="0"))
                 hung = False
             except subprocess.TimeoutExpired:
@@ -259,7 +259,7 @@ CHECK_DEADLOCK FALSE
                           "risky": m["kind"] in ("hugeexp", "hugeshift")})
             meta[i] = (m, src, tokens)
         # mutations of repository programs (no-stl ones assemble fast; a few stl ones)
-        progs = sorted(Path("/repo/programs").rglob("*.fj"))
+        progs = sorted((engines.REPO / "programs").rglob("*.fj"))
         nostl = [p for p in progs if "no-stl" in p.name or "no_stl" in p.name or p.parent.name == "sanity_checks"][:12]
         nm = 150 if quick else 3000
         for k in range(nm):
